@@ -225,6 +225,48 @@ pub fn run_property(prop: &Property, cfg: &RunCfg) -> i32 {
     let mut violations: Vec<Violation> = vec![];
     let mut exhaustive_all = true;
     let mut any_enum = false;
+    let mut regress_failures = 0u64;
+
+    // ---- replay tier: every saved reproduction under replays/<id>/ is re-executed first (seconds)
+    let mut replayed = 0u64;
+    if cfg.only_phase.is_none() {
+        let dir = verif_root().join("replays").join(prop.id);
+        let mut files: Vec<PathBuf> = std::fs::read_dir(&dir)
+            .map(|rd| rd.flatten().map(|e| e.path()).filter(|p| p.extension().map(|x| x == "json").unwrap_or(false)).collect())
+            .unwrap_or_default();
+        files.sort();
+        let w = Worker::new(0, cfg.scratch_root.join("saved_replays"), cfg.cli.clone(), cfg.tier, true);
+        for file in files {
+            let Ok(body) = std::fs::read_to_string(&file) else { continue };
+            let Ok(v) = serde_json::from_str::<Value>(&body) else { continue };
+            let phase_name = v["phase"].as_str().unwrap_or("");
+            let Some(phase) = prop.phases.iter().find(|p| p.name == phase_name) else { continue };
+            let r = match &phase.kind {
+                PhaseKind::Gen { f, .. } => {
+                    let tape = expand_tape(&v["tape"]);
+                    let mut t = Tape::new(&tape);
+                    f(&mut t, &w)
+                }
+                PhaseKind::Enum { f, .. } => f(v["index"].as_u64().unwrap_or(0), &w),
+            };
+            replayed += 1;
+            match r {
+                Ok(_) => {}
+                Err(fail) => {
+                    if let Some(k) = is_known(&known, prop.id, &fail.signature) {
+                        *acc.lock().unwrap().known_hits.entry(k.signature).or_default() += 1;
+                    } else {
+                        eprintln!("[{}] saved replay {} fails again: {} :: {}", prop.id, file.display(), fail.signature, fail.message);
+                        println!("VIOLATION property={} replay={}", prop.id, file.display());
+                        regress_failures += 1;
+                    }
+                }
+            }
+            w.cleanup();
+        }
+        let _ = std::fs::remove_dir(&w.scratch);
+        acc.lock().unwrap().per_phase.insert("saved_replays".into(), json!({"replayed": replayed, "failed": regress_failures}));
+    }
 
     for phase in &prop.phases {
         if let Some(only) = &cfg.only_phase {
@@ -271,7 +313,7 @@ pub fn run_property(prop: &Property, cfg: &RunCfg) -> i32 {
                 let threads = phase.threads.max(1);
                 let next = AtomicU64::new(0);
                 let stop = AtomicBool::new(false);
-                let results: Vec<Option<Violation>> = std::thread::scope(|s| {
+                let results: Vec<Vec<Violation>> = std::thread::scope(|s| {
                     let mut hs = vec![];
                     for t in 0..threads {
                         let acc = &acc;
@@ -288,7 +330,7 @@ pub fn run_property(prop: &Property, cfg: &RunCfg) -> i32 {
                                 cfg.tier,
                                 false,
                             );
-                            let mut out = None;
+                            let mut out: Vec<Violation> = vec![];
                             loop {
                                 if stop.load(Ordering::Relaxed) {
                                     break;
@@ -305,14 +347,18 @@ pub fn run_property(prop: &Property, cfg: &RunCfg) -> i32 {
                                             a.evaluations += 1;
                                             *a.known_hits.entry(k.signature.clone()).or_default() += 1;
                                         } else {
-                                            stop.store(true, Ordering::Relaxed);
+                                            if total > 64 {
+                                                stop.store(true, Ordering::Relaxed);
+                                            }
                                             let replay = json!({
                                                 "property": prop_id, "phase": phase_name, "kind": "enum",
                                                 "index": i, "signature": fail.signature,
                                                 "message": fail.message, "detail": fail.detail,
                                             });
-                                            out = Some(Violation { phase: phase_name.to_string(), fail, replay });
-                                            break;
+                                            out.push(Violation { phase: phase_name.to_string(), fail, replay });
+                                            if total > 64 {
+                                                break;
+                                            }
                                         }
                                     }
                                 }
@@ -421,7 +467,7 @@ pub fn run_property(prop: &Property, cfg: &RunCfg) -> i32 {
         },
         "assumptions": prop.assumptions,
         "wall_s": t0.elapsed().as_secs_f64(),
-        "violations": violations.len(),
+        "violations": violations.len() as u64 + regress_failures,
     });
     let evdir = verif_root().join("evidence");
     std::fs::create_dir_all(&evdir).ok();
@@ -436,7 +482,7 @@ pub fn run_property(prop: &Property, cfg: &RunCfg) -> i32 {
     eprintln!(
         "[{}] {} tier={} seed={} evaluations={} distinct_nontrivial={} cli_execs={} wall={:.1}s violations={}",
         prop.id,
-        if violations.is_empty() { "OK" } else { "FAILED" },
+        if violations.is_empty() && regress_failures == 0 { "OK" } else { "FAILED" },
         cfg.tier.name(),
         cfg.seed,
         a.evaluations,
@@ -448,7 +494,7 @@ pub fn run_property(prop: &Property, cfg: &RunCfg) -> i32 {
     for l in &viol_lines {
         println!("{l}");
     }
-    if violations.is_empty() {
+    if violations.is_empty() && regress_failures == 0 {
         0
     } else {
         1
